@@ -360,6 +360,18 @@ def check_call(fq, args, kwargs=None, contract=None, fn=None):
         if not same:
             failures.append(("frame/same-arguments-same-result", "first call returned %s, the same call again %s"
                              % (short(result), short(again))))
+        else:
+            # ... and however the arguments are passed (a wrapper that keys a memo on the positional tuple shows here)
+            try:
+                kw = dict(ba.arguments)
+                params = inspect.signature(fn).parameters
+                if all(p.kind in (p.POSITIONAL_OR_KEYWORD, p.KEYWORD_ONLY) for p in params.values()) and "self" not in kw:
+                    bykw = call_with_timeout(fn, (), kw)
+                    if not ((bykw == result) and type(bykw) is type(result)):
+                        failures.append(("frame/same-arguments-same-result", "positional call returned %s, the same "
+                                         "arguments by keyword %s" % (short(result), short(bykw))))
+            except Exception as ex:  # noqa
+                failures.append(("frame/same-arguments-same-result", "the same arguments by keyword raised %r" % (ex,)))
     for p, v in before.items():
         if ba.arguments[p] != v:
             failures.append(("frame/writes-outside-modifies", "argument %s changed from %s to %s"
